@@ -113,6 +113,20 @@ def run(chk):
         snapK2 = (np.array(K._C, dtype=float), float(K._norm), np.array(K._a, dtype=float), np.array(K._mlim, dtype=float))
         if not (np.array_equal(snapK[0], snapK2[0]) and snapK[1] == snapK2[1] and np.array_equal(snapK[2], snapK2[2]) and np.array_equal(snapK[3], snapK2[3])):
             chk.fail("evaluating or integrating the density does not change the object", sp, dict(C_before=snapK[0].tolist(), C_after=snapK2[0].tolist()))
+        # the object is a value: built from the caller's float arrays (a scan re-using one work buffer), it keeps describing the exponents and
+        # limits it was BUILT with when the caller later overwrites those arrays
+        a_buf, l_buf = np.array(a, dtype=float), np.array(mlim, dtype=float)
+        Kb = Kroupa(a=a_buf, mlim=l_buf)
+        xs_b = [mlim[0] * (mlim[-1] / mlim[0]) ** u_ for u_ in (0.13, 0.5, 0.87)]
+        dens_b = [float(Kb.eval(x_)[0]) for x_ in xs_b]
+        a_buf += 0.5
+        l_buf *= 1.25
+        dens_after = [float(Kb.eval(x_)[0]) for x_ in xs_b]
+        want_b = [float(K.eval(x_)[0]) for x_ in xs_b]
+        chk.count("objects built from caller-owned float arrays that are overwritten afterwards")
+        if dens_after != dens_b or not all(abs(p_ - q_) <= 1e-12 * abs(q_) for p_, q_ in zip(dens_b, want_b)):
+            chk.fail("evaluating or integrating the density does not change the object", dict(sp, note="exponent / limit arrays of the caller overwritten after construction"),
+                     dict(density_before=dens_b, density_after_caller_changed_its_arrays=dens_after, density_of_object_built_from_lists=want_b))
         # sub-ranges
         subs = []
         for _ in range(4):
